@@ -340,6 +340,43 @@ def source_kind(toks, fn, dot):
         ty = declared_type(toks, fn, r[1], dot)
         if ty:
             return classify_type(ty)
+        # `let name = <expr>;` without a type: look at the initialiser
+        for k in range(dot - 1, fn[1], -1):
+            if toks[k][0] == "id" and toks[k][1] == "let":
+                nm, _ = let_name_type(toks, k)
+                if nm != r[1]:
+                    continue
+                e = stmt_end(toks, fn, k)
+                eq = k
+                while eq < e and toks[eq][1] != "=":
+                    eq += 1
+                init = toks[eq + 1:e]
+                if not init:
+                    break
+                if init[-1][1] == ")":
+                    m = match_back(toks, e - 1)
+                    name_i, tf = turbofish_back(toks, m)
+                    meth = toks[name_i][1]
+                    if meth == "collect" and tf.startswith("Vec"):
+                        return ("vec", "collect::<%s>()" % tf)
+                    if meth in ("new", "with_capacity") and toks[name_i - 1][1] == "::" and toks[name_i - 2][1] == "Vec":
+                        return ("vec", "Vec::" + meth)
+                    if m == eq + 1:      # a parenthesised expression
+                        if any(t[1] in ("..", "..=") for t in init):
+                            return ("range", "(a..b)")
+                if init[0][1] == "vec" and init[1][1] == "!":
+                    return ("vec", "vec![..]")
+                depth, rng = 0, False
+                for t in init:
+                    if t[0] == "p" and t[1] in OPEN:
+                        depth += 1
+                    elif t[0] == "p" and t[1] in CLOSE:
+                        depth -= 1
+                    elif t[1] in ("..", "..=") and depth == 0:
+                        rng = True
+                if rng:
+                    return ("range", "a..b")
+                break
         return ("unknown", "untyped local")
     return ("unknown", r[1])
 
@@ -387,7 +424,32 @@ def scope_end(toks, fn, name, after):
     return fn[2]
 
 
-def uses_of(toks, fn, name, after):
+def stmt_end(toks, fn, li):
+    """index of the ';' that ends the let statement starting at token li"""
+    k, depth = li, 0
+    while k < fn[2]:
+        x = toks[k]
+        if x[0] == "p" and x[1] in OPEN:
+            depth += 1
+        elif x[0] == "p" and x[1] in CLOSE:
+            depth -= 1
+        elif x[1] == ";" and depth == 0:
+            break
+        k += 1
+    return k
+
+
+def value_uses(toks, fn, pos, depth=0):
+    """how the value of the expression containing token `pos` is consumed: through the let that
+    binds it (possibly as the tail of nested blocks / match arms), or as the function's result"""
+    li = enclosing_let(toks, pos, fn[1])
+    if li is None:
+        return ["returned"]
+    var, _ = let_name_type(toks, li)
+    return uses_of(toks, fn, var, stmt_end(toks, fn, li), depth) or ["unused"]
+
+
+def uses_of(toks, fn, name, after, depth=0):
     """how a local vector is consumed after index `after`"""
     uses = []
     for k in range(after, scope_end(toks, fn, name, after)):
@@ -406,6 +468,11 @@ def uses_of(toks, fn, name, after):
                     uses.append("method:" + m)
             elif nxt == "}" and k + 1 == fn[2]:
                 uses.append("returned")
+            elif nxt == "}" and prev in (";", "{", "=>") and depth < 4:
+                # tail expression of a block / match arm: the value flows to whatever binds the block
+                uses += value_uses(toks, fn, k, depth + 1)
+            elif nxt in (",", "}") and prev == "=>" and depth < 4:
+                uses += value_uses(toks, fn, k, depth + 1)
             elif prev in ("(", ",") and nxt in (")", ","):
                 uses.append("passed")
             elif nxt == ":":
@@ -487,18 +554,7 @@ def finish_site(toks, fn, fns, rel, entry, src, chain_methods, end_i, via, files
         rec["sink"] = ("other", name)
     # what happens to the gathered value
     if var:
-        # statement end: first ';' at the let's nesting level
-        k, depth_ = li, 0
-        while k < fn[2]:
-            x = toks[k]
-            if x[0] == "p" and x[1] in OPEN:
-                depth_ += 1
-            elif x[0] == "p" and x[1] in CLOSE:
-                depth_ -= 1
-            elif x[1] == ";" and depth_ == 0:
-                break
-            k += 1
-        rec["post"] = uses_of(toks, fn, var, k) or ["unused"]
+        rec["post"] = uses_of(toks, fn, var, stmt_end(toks, fn, li)) or ["unused"]
     else:
         rec["post"] = ["returned"] if toks[hi + 1][1] == "}" and hi + 1 == fn[2] else ["expression"]
     return [rec]
@@ -565,6 +621,14 @@ def extract(repo=None):
                     rec.setdefault("line", t[2])
                     info["sites"].append(rec)
                     site_fns.add(rec["fn"])
+            if t[0] == "id" and t[1] == "rayon" and toks[i + 1][1] == "::" and toks[i + 2][0] == "id" and \
+                    toks[i + 2][1] in ("join", "join_context", "scope", "scope_fifo", "in_place_scope", "in_place_scope_fifo",
+                                       "spawn", "spawn_fifo", "broadcast", "spawn_broadcast", "yield_now", "yield_local"):
+                fn = enclosing_fn(fns, i)
+                if fn is not None:
+                    info["sites"].append({"file": rel, "fn": fn[0], "entry": "rayon::" + toks[i + 2][1],
+                                          "src": ("unknown", "task parallelism"), "adaptors": [], "shared": [], "via": "",
+                                          "line": t[2], "sink": ("none", ""), "post": ["task parallelism"]})
         info["thresholds"] += [(rel, f, v) for (f, v) in thresholds(toks, fns, consts)]
     info["sites"].sort(key=lambda r: (r["file"], r["fn"], r["entry"], r["line"]))
     # keep only the thresholds of functions that contain (or reach) a parallel site
